@@ -290,7 +290,8 @@ Proof.
     inversion H; subst pcs. constructor; [cbn; eauto|]. eapply IH; eassumption.
 Qed.
 
-(** * The full statement at registry level (kept visible; see DESIGN.md):
+(** * The full statement at registry level (proved in Proofs/ClientConfigLoad.v,
+    [config_roundtrip_statement_holds] / [config_roundtrip]):
     what [reload] gives is the same registry.  "Same": the same record and
     extra fields under every uid. *)
 Definition same_registry (r1 r2 : registry) : Prop :=
